@@ -253,8 +253,8 @@ SPEC = {
              'check raises iff own DFS finds a cycle reachable from the outputs. Non-trivial: some gate has >=2 '
              'distinct users and the start set reaches a strict non-empty subset; for cycles: a cycle exists.'),
     'assumptions': ['own reachability / cycle detection in props/c20.py'],
-    'subs': [Sub('traverse', cases, check_traverse, {'quick': 3000, 'thorough': 50000}),
-             Sub('cycles', cyclic_cases, check_cycles, {'quick': 1500, 'thorough': 20000})],
+    'subs': [Sub('traverse', cases, check_traverse, {'quick': 3000, 'thorough': 250000}),
+             Sub('cycles', cyclic_cases, check_cycles, {'quick': 1500, 'thorough': 100000})],
     'required_classes': {'traverse': ['DFS', 'BFS', 'inverse', 'forward', 'start:list', 'start:empty',
                                       'start_repeats', 'dup_operand', 'strict_subset'],
                          'cycles': ['cycle_reachable', 'cycle_unreachable', 'acyclic']},
